@@ -622,6 +622,8 @@ def parse_template(s, atoms):
 
 
 def has_atoms(s):
+    if isinstance(s, AtomStr):
+        return True
     return any(HEAD0 <= ord(c) <= HEADMAX or c == CONT for c in s)
 
 
